@@ -89,7 +89,7 @@ class ModuleInfo(object):
         if not external and not os.environ.get('VT_NO_NORMALIZE'):
             # behaviour-preserving normalisation of the parsed tree (see normalize.py); positions are kept
             from . import normalize
-            self.tree, self.inlined_calls = normalize.normalize_tree(self.tree)
+            self.tree, self.inlined_calls = normalize.normalize_tree(self.tree, lambda ident: repo.mentioned_outside(ident, path))
         if external:
             self.relpath = 'site-packages/' + name.replace('.', '/') + '.py'
         else:
@@ -193,7 +193,19 @@ class ModuleInfo(object):
         try:
             fi = self.functions[qualname]
         except KeyError:
-            raise AnalysisError('anchor vanished: function %s::%s' % (self.name, qualname))
+            fi = None
+            # ``Class.method`` that the class now inherits from a base class of the analysed tree (the method was moved
+            # into a mixin / base): the function the name resolves to through the MRO is the one to analyse
+            cname, _, mname = qualname.rpartition('.')
+            if cname in self.classes and mname:
+                try:
+                    fi = self.repo.find_method(self.classes[cname], mname)
+                except Exception:
+                    fi = None
+                if fi is not None and fi.mod.external:
+                    fi = None
+            if fi is None:
+                raise AnalysisError('anchor vanished: function %s::%s' % (self.name, qualname))
         self.repo.functions_touched.add(fi.key)
         return fi
 
@@ -283,6 +295,7 @@ class Repo(object):
     def __init__(self, root):
         self.root = os.path.abspath(root)
         self._mods = {}
+        self._words = None
         self.functions_touched = set()
         if not os.path.isdir(os.path.join(self.root, self.PKG)):
             raise AnalysisError('no %s package under %s' % (self.PKG, self.root))
@@ -299,6 +312,28 @@ class Repo(object):
 
     def is_internal(self, name):
         return name == self.PKG or name.startswith(self.PKG + '.')
+
+    def mentioned_outside(self, ident, own_path):
+        """Does any source file of the package other than ``own_path`` contain the identifier ``ident`` (as a word,
+        anywhere: code, string, comment)?  Used by the front-end before it treats a private definition as local to its
+        module.  Test directories are not part of the analysed program and are not consulted."""
+        if self._words is None:
+            import re
+            self._words = {}
+            pkgdir = os.path.join(self.root, self.PKG)
+            for dp, dn, fn in os.walk(pkgdir):
+                dn[:] = [d for d in dn if d not in ('__pycache__', 'tests')]
+                for f in fn:
+                    if f.endswith('.py'):
+                        fp = os.path.join(dp, f)
+                        try:
+                            with open(fp, 'rb') as fh:
+                                txt = fh.read().decode('utf-8', 'replace')
+                        except IOError:
+                            continue
+                        self._words[os.path.abspath(fp)] = set(re.findall(r'[A-Za-z_][A-Za-z0-9_]*', txt))
+        own = os.path.abspath(own_path)
+        return any(ident in w for fp, w in self._words.items() if fp != own)
 
     def mod(self, name):
         if name in self._mods:
